@@ -1165,6 +1165,7 @@ def rule_r17(ctx):
                 tests.append(p_.test)
             p_ = getattr(p_, "_parent", None)
         tests += _earlier_continue_tests(lp, call)
+        tests += _callee_guards(f, call, emitters)
         mentioned: set[str] = set()
         guard_names: set[str] = set()
         for t in tests:
@@ -1186,7 +1187,7 @@ def rule_r17(ctx):
                 continue
             # the pair is covered when either of the two loops guards against the other's collection
             lp_o = next(o for o in loops if coll_of(o) == other)
-            covered = other in mentioned or _guards_against(lp_o, mine, src, derived, emitters)
+            covered = other in mentioned or _guards_against(lp_o, mine, src, derived, emitters, f)
             if loops.index(lp_o) < j or not covered:
                 ctx.check("R17", f"serialize_graph_into: annotations of {mine} are not emitted again for values that are also {other}", covered, f, call,
                           f"the loop over the {mine} emits a quantization annotation for every value with one, and so does the loop over the {other}: a value that is both "
@@ -1220,12 +1221,39 @@ def _earlier_continue_tests(lp, call):
     return out
 
 
+def _callee_guards(f, call, emitters):
+    """Tests that govern the emission inside a module function the loop hands the value to (`_emit_for(graph_proto, value)`): ifs
+    enclosing the emission there, and the guard clauses (`if …: return`) before it - read as tests of the loop itself."""
+    d = dotted_of(call.func) or ""
+    g = f.module.functions.get(d) if "." not in d else None
+    if g is None or isinstance(g.node, ast.Lambda):
+        return []
+    inner = next((c for c in ast.walk(g.node) if c is not call and _emits(c, emitters - {g.name})), None)
+    if inner is None:
+        return []
+    tests = []
+    child, p_ = inner, getattr(inner, "_parent", None)
+    while p_ is not None:
+        if isinstance(p_, ast.If):
+            tests.append(p_.test)
+        for fld in ("body", "orelse"):
+            b = getattr(p_, fld, None)
+            if isinstance(b, list) and any(child is st for st in b):
+                for st in b[: next(i for i, st in enumerate(b) if st is child)]:
+                    if isinstance(st, ast.If) and any(isinstance(y, (ast.Return, ast.Continue)) for y in st.body):
+                        tests.append(st.test)
+        if p_ is g.node:
+            break
+        child, p_ = p_, getattr(p_, "_parent", None)
+    return tests
+
+
 def _emits(c, emitters) -> bool:
     return isinstance(c, ast.Call) and ((dotted_of(c.func) or "") in emitters or (
         isinstance(c.func, ast.Attribute) and c.func.attr == "add" and norm(c.func.value).endswith(".quantization_annotation")))
 
 
-def _guards_against(lp, coll, src, derived, emitters) -> bool:
+def _guards_against(lp, coll, src, derived, emitters, f=None) -> bool:
     call = next((c for c in ast.walk(lp) if _emits(c, emitters)), None)
     if call is None:
         return False
@@ -1236,6 +1264,8 @@ def _guards_against(lp, coll, src, derived, emitters) -> bool:
             tests.append(p_.test)
         p_ = getattr(p_, "_parent", None)
     tests += _earlier_continue_tests(lp, call)
+    if f is not None:
+        tests += _callee_guards(f, call, emitters)
     flag = {"outputs": "is_graph_output", "inputs": "is_graph_input", "initializers": "is_initializer"}.get(coll)
     for t in tests:
         for x in ast.walk(t):
